@@ -191,7 +191,9 @@ def run(ctx):
     # V: random strings of XML-legal characters, incl. pre-escaped text, mixed quotes, non-ASCII, whitespace controls
     ns = 3000 if tier == "quick" else 80000
     frag = ["&", "<", ">", '"', "'", "&amp;", "&lt;", "&gt;", "&quot;", "&apos;", "&#38;", "&#x3c;", "amp;", "lt", ";", "#", " ", "a", "Tom", "é", "中", "\U0001F600",
-            "\t", "\n", "\r", "]]>", "<!--", "&&", "''", '""']
+            "\t", "\n", "\r", "]]>", "<!--", "&&", "''", '""',
+            # characters an escaper might be tempted to treat specially: no-break space, soft hyphen, NEL, line/paragraph separators, replacement char, a C1 control
+            "\u00a0", "\u00ad", "\u0085", "\u2028", "\u2029", "\ufffd", "\u0091", "\u200b", "\ufeff"]
     for _ in range(ns):
         s = "".join(rng.choice(frag) for _k in range(rng.randint(0, 8)))
         evs.append(esc_event(tu, etree, s))
